@@ -2,6 +2,7 @@ import GudhiVerif.Model.Fields
 import GudhiVerif.Zp2P
 import GudhiVerif.Crt
 import GudhiVerif.MultiField
+import GudhiVerif.MultiField2
 /-! # C10 — coefficient fields implement exact modular arithmetic (property theorems)
 
 Full statement (`C10_full`, informal): for every accepted characteristic every class computes integer arithmetic
@@ -14,10 +15,14 @@ the Z_p family completely (all operations, every modulus below 2³², the invers
 composites for every p ≤ 2¹⁶).  For the multi-field family (`MultiField.lean`): `sqMul_spec` (the square-and-multiply loop
 is modular exponentiation), `isPrime_iff` / `mfInit_wf` (every field accepted by `mfInit` has distinct primes, their product
 and the CRT idempotents), `mfPid_spec` (the partial identity for `Q` is 1 modulo the primes of the field dividing `Q`, 0 modulo
-the others) and `mfPinv_spec` (the partial inverse is an inverse of `x` modulo every prime of `T = Q / gcd(x, Q)` and 0 modulo
-the other primes).  **Partial** (`C10_multi_partial`): `mfPinv_spec` takes the result of the extended-Euclid loop
-(`egcdInv`, fuel-bounded as in the model) as a hypothesis — that loop is compared with the code and with the exact oracle
-of `props/C10.py`, not proved. -/
+the others); `Egcd.egcdLoop_spec` / `egcdLoop_bound` / `egcdInv_spec` (the extended-Euclid loop of `_get_inverse`: whatever it
+returns for coprime arguments is the inverse, reduced into `[0, md]` — Bézout invariants and the alternating-sign size
+invariant `A·|y| + M·|x| = md`); `coprime_div_gcd` and **`mfPinv_correct`** — for `Q` dividing the characteristic the partial
+inverse is an inverse of `x` modulo every prime of `T = Q / gcd(x, Q)` and 0 modulo the other primes of the field.
+`Egcd.egcdLoop_terminates` / `egcdInv_isSome` / `mfPinv_total` — the 200 iterations of the model suffice for every modulus below
+2⁹⁹ (the second argument halves every two iterations), so below that bound the statement has no hypothesis on the loop.
+**Partial** (`C10_multi_partial`): for larger moduli (GMP classes) `mfPinv_correct` assumes that the loop of the *model*
+returns; there the result is compared with the code and with the exact oracle of `props/C10.py`. -/
 namespace C10
 open FieldsModel
 
